@@ -1,37 +1,25 @@
 package internal
 
 import (
-	"bufio"
 	"bytes"
 	"fmt"
 	"os/exec"
 	"strings"
 )
 
+// NVRAM returns name=value for each of names, in the order given. A variable
+// that is not set is returned as name=, which SetNVRAM removes again.
 func NVRAM(names ...string) ([]string, error) {
-	if len(names) == 0 {
-		return nil, nil
-	}
-	out, err := nvram("show")
-	if err != nil {
-		return nil, err
-	}
-	s := bufio.NewScanner(strings.NewReader(out))
-	names = append([]string{}, names...)
-	for i := range names {
-		names[i] += "="
-	}
-	var vars []string
-	for s.Scan() {
-		v := s.Text()
-		for _, n := range names {
-			if strings.HasPrefix(v, n) {
-				vars = append(vars, v)
-			}
+	vars := make([]string, 0, len(names))
+	for _, name := range names {
+		// Ask for each variable by name: in the output of "nvram show" only
+		// the first line of a multi-line value starts with name=.
+		value, err := nvram("get", name)
+		if err != nil {
+			// Some nvram tools exit non-zero for a variable that is not set.
+			value = ""
 		}
-	}
-	if err := s.Err(); err != nil {
-		return nil, err
+		vars = append(vars, name+"="+value)
 	}
 	return vars, nil
 }
